@@ -35,7 +35,7 @@ allp = [p["id"] for p in props]
 m = {"version": 1,
      "setup_cmd": "./pv setup",
      "hooks": {"guard": "prometheus_verif", "enable": "none needed: static analysis reads the source as it is (no hooks are compiled in)",
-               "baseline_off_cmd": "cd /repo && cargo test --workspace --no-fail-fast --offline", "source_commits": [], "add_only": True},
+               "baseline_off_cmd": "cd /repo && cargo nextest run --workspace --no-fail-fast --offline  (fallback: cargo test --workspace --no-fail-fast --offline; no hooks exist, so guard-off is the plain build)", "source_commits": [], "add_only": True},
      "engines": [{"name": "mirfacts", "path": "driver/", "serves_properties": allp, "kind_free_text": "rustc_private driver dumping resolved MIR + item tables of /repo's current tree as JSON facts (no library code is executed)"},
                  {"name": "pvrules", "path": "rules/", "serves_properties": allp, "kind_free_text": "python rule library over MIR facts: CFG/dominators, data-flow terms, path rules, call graph, cross-config diff"}],
      "checks": checks, "not_applicable": na,
